@@ -97,10 +97,52 @@ pub fn utf8_markers(key: u64, n: usize, base: usize) -> Vec<u8> {
 }
 
 fn text(key: u64, n: usize, base: usize, sel: u32) -> Vec<u8> {
-    if sel & 8 != 0 {
-        utf8_markers(key, n, base)
-    } else {
-        ascii_markers(key, n, base)
+    let mut t = if sel & 8 != 0 { utf8_markers(key, n, base) } else { ascii_markers(key, n, base) };
+    // one text in eight begins with a byte order mark (valid UTF-8, no NUL)
+    if sel & 0x70 == 0x70 && n >= 3 {
+        t[..3].copy_from_slice(&[0xEF, 0xBB, 0xBF]);
+        if std::str::from_utf8(&t).is_err() {
+            for b in t[3..].iter_mut() {
+                *b = 0x21 + *b % 0x5e;
+            }
+        }
+    }
+    t
+}
+
+/// Byte patterns that mean something elsewhere (an end tag, the magics, an
+/// all-ones word, signatures of neighbouring specifications, a tag header):
+/// inside an opaque payload they are ordinary bytes.
+pub const PATTERNS: [[u8; 8]; 12] = [
+    [0, 0, 0, 0, 8, 0, 0, 0],
+    [0x89, 0x62, 0xD7, 0x36, 0, 0, 0, 0],
+    [0xD6, 0x50, 0x52, 0xE8, 0, 0, 0, 0],
+    [0xFF; 8],
+    [0; 8],
+    *b"RSD PTR ",
+    [0xEF, 0xBB, 0xBF, 0xEF, 0xBB, 0xBF, 0, 0],
+    [0x7f, b'E', b'L', b'F', 2, 1, 1, 0],
+    *b"_SM3__SM",
+    [1, 0, 0, 0, 16, 0, 0, 0],
+    [0xFF, 0xFF, 0xFF, 0x7F, 0, 0, 0, 0x80],
+    [0x5A; 8],
+];
+
+/// In one payload of four (`sel` bits 20..=21 == 1) up to three 8-byte words
+/// of `body[from..]` are replaced by [`PATTERNS`].
+fn pattern_fill(body: &mut [u8], from: usize, key: u64, sel: u32) {
+    if (sel >> 20) & 3 != 1 || body.len() < from + 8 {
+        return;
+    }
+    let words = (body.len() - from) / 8;
+    for j in 0..3 {
+        let w = marker(key ^ 0xFA77, 2 * j) as usize % words;
+        let p = PATTERNS[marker(key ^ 0xFA77, 2 * j + 1) as usize % PATTERNS.len()];
+        body[from + 8 * w..from + 8 * w + 8].copy_from_slice(&p);
+        if j == 0 && words >= 1 && marker(key ^ 0xFA77, 9) & 1 == 0 {
+            // the last word of the payload
+            body[from + 8 * (words - 1)..from + 8 * words].copy_from_slice(&p);
+        }
     }
 }
 
@@ -156,6 +198,7 @@ pub fn conformant_tag(kind: u32, key: u64, n: usize, sel: u32) -> Vec<u8> {
         5 => tag(5, &w(key, 12, 8)),
         6 => {
             let mut body = w(key, 8 + 24 * n, 8);
+            pattern_fill(&mut body, 8, key, sel);
             put32(&mut body, 0, 24);
             tag(6, &body)
         }
@@ -187,6 +230,7 @@ pub fn conformant_tag(kind: u32, key: u64, n: usize, sel: u32) -> Vec<u8> {
         9 => {
             let es: usize = if sel & 1 == 0 { 40 } else { 64 };
             let mut body = w(key, 12 + n * es, 8);
+            pattern_fill(&mut body, 12, key, sel);
             put32(&mut body, 0, n as u32);
             put32(&mut body, 4, es as u32);
             let shndx = if n == 0 { 0 } else { (sel >> 1) as usize % n };
@@ -202,6 +246,7 @@ pub fn conformant_tag(kind: u32, key: u64, n: usize, sel: u32) -> Vec<u8> {
         12 | 20 => tag(kind, &w(key, 8, 8)),
         13 => {
             let mut body = w(key, 8 + n, 8);
+            pattern_fill(&mut body, 8, key, sel);
             // trailing zero bytes in the tables (they are content, not padding)
             if sel & 4 != 0 {
                 for x in body.iter_mut().rev().take(3.min(n)) {
@@ -241,6 +286,7 @@ pub fn conformant_tag(kind: u32, key: u64, n: usize, sel: u32) -> Vec<u8> {
         }
         16 => {
             let mut body = w(key, n, 8);
+            pattern_fill(&mut body, 0, key, sel);
             if sel & 4 != 0 {
                 for x in body.iter_mut().rev().take(2.min(n)) {
                     *x = 0;
@@ -251,11 +297,16 @@ pub fn conformant_tag(kind: u32, key: u64, n: usize, sel: u32) -> Vec<u8> {
         17 => {
             let d = [40usize, 48, 56, 64][(sel % 4) as usize];
             let mut body = w(key, 8 + n * d, 8);
+            pattern_fill(&mut body, 8, key, sel);
             put32(&mut body, 0, d as u32);
             put32(&mut body, 4, 1);
             tag(17, &body)
         }
-        k => tag(k, &w(key, n, 8)),
+        k => {
+            let mut body = w(key, n, 8);
+            pattern_fill(&mut body, 0, key, sel);
+            tag(k, &body)
+        }
     }
 }
 
